@@ -19,7 +19,7 @@ INV_OF = {
     "C07": {"DlqOnce", "DlqSourceOrder", "DlqBeforeAck", "DlqCarriesOriginal", "DlqDecision", "DlqFailNoAck", "DlqStops"},
     "C08": {"ExactlyOne", "WriteDerived", "NoEarlyAck", "DlqOnce", "DlqOriginal", "PositionImmutable", "AckPrefix",
             "NoDupWrite", "DestOrder"},
-    "C09": {"NoPanic", "NoHang", "NoEarlyAck", "CondAligned"},
+    "C09": {"NoPanic", "NoHang", "NoEarlyAck", "CondAligned", "StoreMonotone", "PositionImmutable"},
 }
 
 
